@@ -119,7 +119,7 @@ PERSIST_HEAVY = dict(
                                             '-x', 'x' * 60, '\U0001f600',
                                             '{0}', '%s', 'q"q', "q'q",
                                             't\tb', 'n\nl', '\\b', '..c',
-                                            'e\u0301'],
+                                            'e\u0301', '\udce9t', 'n\udcff'],
     n_steps=(3, 6), p_mutate_step=0.1, p_clean_step=0.15, w_raise=6,
     p_catch=0.85, p_version_change=0.2, n_groups=(1, 1), p_nonjson=0.02)
 
@@ -131,8 +131,8 @@ SWAP_HEAVY = dict(
     p_clean_step=0.08, n_init=(0, 3))
 SWAP_DENSE = dict(
     SWAP_HEAVY, p_swap_dense=1.0, p_switch_root=0.9, n_steps=(3, 6),
-    p_mutate_step=0.1, p_clean_step=0.05, w_raise=5, max_nest=1,
-    p_write_never=0.04)
+    p_mutate_step=0.2, p_clean_step=0.05, w_raise=5, max_nest=1,
+    p_write_never=0.04, p_dir2file=0.5)
 OVERLAP = dict(
     p_anc_target=0.35, w_bf=36, w_sb=10, w_q=26, w_raise=10, p_catch=0.9,
     p_write_never=0.15, p_write_unlink=0.05, n_paths=(3, 5), n_init=(1, 5),
@@ -280,7 +280,7 @@ CAMPAIGNS = {
         {'name': 'c10-contract', 'profile': 'C10', 'mode': 'plain',
          'nontrivial': nt_any_build, 'weight': 2.0,
          'params': dict(VIEW_HEAVY, w_probe=8, p_mutate_step=0.4,
-                        p_tamper=0.5, n_init=(0, 5)),
+                        p_tamper=0.5, n_init=(0, 5), p_prefix_names=0.4),
          'post': 'tag_all:C10',
          'rule': 'build_file at depth 1-3 over prior states of target and '
                  'ancestors x failure modes; physical and virtual state '
@@ -618,6 +618,16 @@ CAMPAIGNS['C12'].append(
          mode='sched-sweep', nontrivial=nt_threads, chunk=3,
          post='tag_all:C12', weight=0.8,
          sweep_max={'quick': 16, 'thorough': None}))
+CAMPAIGNS['C14'].append(camp(
+    'c14-overlap-sweep', 'C14',
+    dict(OVERLAP, p_catch=0.6, p_mutate_step=0.5, n_steps=(3, 5)),
+    'targets above / below other targets, foreign files written where '
+    'earlier builds had created directories (and the other way round) '
+    'between builds: OSError at every pre-commit mutating call index, '
+    'propagating out of build or caught and followed by a root failure - '
+    'the rollback restores foreign files before it recreates directories',
+    mode='oserror-sweep', nontrivial=nt_rollback_restored, chunk=6, follow=1,
+    crash_end=True, weight=0.8, sweep_max={'quick': 12, 'thorough': None}))
 RACE_RULE = ('a key (build_file path / subbuild name+arguments) performed '
              'directly by one thread while another thread reuses or '
              're-executes a cached subtree (depth 1-2) that contains it; '
@@ -722,11 +732,12 @@ CAMPAIGNS['C07'].append(camp(
 CAMPAIGNS['C02'].append(camp(
     'c02-cache-write-faults', 'C02', dict(p_mutate_step=0.4, p_tamper=0.5),
     'the exception is raised while the cache file is being written: OSError '
-    'at cache open / write / close and torn writes, with and without a '
-    'previous cache file', mode='oserror-sweep',
+    'when the old cache file is moved aside (makedirs / rename), at cache '
+    'open / write / close, and torn writes, with and without a previous '
+    'cache file', mode='oserror-sweep',
     nontrivial=nt_rollback_restored, chunk=6, follow=1, weight=0.5,
-    only_calls=['gzopen_w', 'gzwrite', 'gzclose'],
-    sweep_max={'quick': 12, 'thorough': None}))
+    only_calls=['@cache'],
+    sweep_max={'quick': 14, 'thorough': None}))
 CAMPAIGNS['C04'].append(camp(
     'c04-oserror', 'C04',
     dict(VIEW_HEAVY, p_catch=0.95, p_tamper=0.6, p_mutate_step=0.4,
